@@ -1236,6 +1236,10 @@ impl Bitboard {
                             _ => { return false; }
                         }
 
+                        if mv.is_castle_move() {
+                            return false;
+                        }
+
                         if takes.is_some() && !mv.is_attack() {
                             return false;
                         }
